@@ -88,7 +88,7 @@ MC_PLANS = {
 SX_PLANS = {
     "C01": ("solve:base,locks,excl,unknown,hints,hintcons,selfreq,large", 40, 600),
     "C02": ("solve:midconflict,conflict,bigconflict,hintcons,selfreq,large", 60, 1000),
-    "C03": ("solve:midconflict,conflict,bigconflict,cyclic", 60, 1000),
+    "C03": ("solve:bigconflict,conflict,midconflict,cyclic", 80, 2000),
     "C05": ("solve:midconflict,conflict,direct,base,cyclic,selfreq", 50, 800),
     "C07": ("solve:clean,unionoverlap,manycands", 60, 800),
     "C08": ("solve:direct,direct2", 100, 1500),
@@ -223,6 +223,34 @@ def trace_check(prop, tier, seed, plans, t0, extra_cov=None, jobs=12, build_prof
         mc_info.update(sx_info)
         mc_viol = mc_viol + sx_viol
         mc_info["mc_states"] = mc_info.get("mc_states", 0) + sx_info.get("step_exact_states", 0)
+        # Conformance drift = the code no longer does what the model computes.  That is not a
+        # violation (no property fixes the order of propagation), but it is the moment to look
+        # harder: the quick tier then runs the same plans once more at several times the size,
+        # with other seeds, and the property's own rules judge those runs too.
+        drift = sx_info.get("step_exact_diverged", 0) + sx_info.get("step_exact_outcome_differs", 0)
+        owned_so_far = [f for f in res.fails if owned_by(prop, f["rule"])]
+        if tier == "quick" and drift and not owned_so_far and not mc_viol:
+            log(f"[{prop}] conformance drift in {drift} replayed runs: deepening the quick run")
+            wd2 = vlib.fresh_dir(os.path.join(vlib.WORK, prop + "_deep"))
+            files2 = []
+            for pi, (plan, nq, nt, variants, wbx) in enumerate(plans):
+                if plan.split(":")[0] not in ("solve", "template"):
+                    continue
+                n2 = min(nt, 6 * nq)
+                allc = os.path.join(wd2, f"plan{pi}.all")
+                cnt = vlib.gen_cases(exe, allc, plan, n2, seed + 7919, variants, whitebox=wbx, first_id=first_id)
+                first_id += cnt
+                total_cases += cnt
+                files2 += vlib.split_file(allc, max(1, min(2 * jobs, cnt // 100 + 1)), wd2, f"plan{pi}")
+                os.remove(allc)
+            res2 = vlib.run_and_validate(exe, files2, prop + "-deep", jobs=jobs)
+            res.fails += res2.fails
+            res.cover.update(res2.cover)
+            res.runs += res2.runs
+            res.states += res2.states
+            res.transitions += res2.transitions
+            res.profiles.update(res2.profiles)
+            mc_info["deepened_after_conformance_drift"] = {"drifting_runs": drift, "extra_runs": res2.runs}
     for bp, other in list(zip(build_profiles, exes))[1:]:
         # the same cases again in another build profile (debug assertions on)
         copies = []
@@ -577,6 +605,8 @@ def step_exact_replay(prop, tier, seed, plan, n, timeout=600):
             elif '"ev":"assign"' in line and '"tag":"decide"' in line:
                 e = json.loads(line)
                 runs[cur]["dec"].append(var2solv.get(e["v"], -1))
+            elif '"ev":"unsatids"' in line:
+                runs[cur]["ids"] = sorted(json.loads(line)["ids"])
             elif '"ev":"result"' in line:
                 e = json.loads(line)
                 runs[cur]["kind"] = e["kind"]
@@ -613,25 +643,30 @@ def step_exact_replay(prop, tier, seed, plan, n, timeout=600):
     for line in out.splitlines():
         if line.startswith('"REPLAYED|'):
             f = line.strip().strip('"').split("|")
-            rep[int(f[1])] = (f[2], f[3], int(f[4]), int(f[5]), int(f[6]))
+            rep[int(f[1])] = (f[2], f[3], int(f[4]), int(f[5]), int(f[6]), f[7] if len(f) > 7 else "")
         elif line.startswith('"DIVERGE|'):
             f = line.strip().strip('"').split("|")
             div[int(f[1])] = {"at_decision": int(f[2]), "real": f[3], "model_offers": f[4]}
     exact, differ = 0, []
     learnt_total = 0
+    ids_compared = 0
     for cid, r in runs.items():
         if cid not in rep:
             continue
-        k, sol, nl, nr, nd = rep[cid]
+        k, sol, nl, nr, nd, ids = rep[cid]
         learnt_total += nl
-        if k == r["kind"] and (k != "sat" or sol == ",".join(str(x) for x in r["sol"])) and nd == len(r["dec"]):
+        same_ids = k != "unsat" or "ids" not in r or ids == ",".join(str(x) for x in r["ids"])
+        if k == "unsat" and "ids" in r:
+            ids_compared += 1
+        if k == r["kind"] and (k != "sat" or sol == ",".join(str(x) for x in r["sol"])) and nd == len(r["dec"]) and same_ids:
             exact += 1
         elif cid not in div:
-            differ.append({"case": cid, "real": [r["kind"], r["sol"], len(r["dec"])], "model": [k, sol, nd]})
+            differ.append({"case": cid, "real": [r["kind"], r["sol"], len(r["dec"]), r.get("ids")], "model": [k, sol, nd, ids]})
     info = {"step_exact_cases": kept, "step_exact_reproduced": exact, "step_exact_diverged": len(div),
             "step_exact_outcome_differs": len(differ), "step_exact_examples": (list(div.items())[:3] + differ[:3]),
             "step_exact_states": st["distinct"], "step_exact_learnt_clauses_in_model": learnt_total,
-            "step_exact_plan": plan}
+            "step_exact_plan": plan,
+            "step_exact_reported_clause_sets_compared": ids_compared}
     log(f"[{prop}] step-exact replay through LazyCdclW: {kept} runs, {exact} reproduced exactly, "
         f"{len(div)} diverged, {len(differ)} ended differently, {learnt_total} learnt clauses, {st['distinct']} states")
     return info, viol
